@@ -277,6 +277,10 @@ fn perform_gc_after_recheck_internal(
   all_modules: &HashMap<ModuleReference, Module<Arc<Type>>>,
   changed_modules: Vec<ModuleReference>,
 ) {
+  #[cfg(samlang_verif)]
+  if let Some(slice) = samlang_heap::verif_hooks::gc_slice_override() {
+    remaining_slice = slice;
+  }
   for mod_ref in changed_modules {
     heap.add_unmarked_module_reference(mod_ref);
   }
@@ -289,6 +293,11 @@ fn perform_gc_after_recheck_internal(
     } else {
       break;
     }
+  }
+  #[cfg(samlang_verif)]
+  if let Some(sweep_unit) = samlang_heap::verif_hooks::gc_sweep_unit_override() {
+    heap.sweep(sweep_unit);
+    return;
   }
   heap.sweep(NUM_SWEEP_UNIT);
 }
